@@ -90,58 +90,63 @@ example : padShapeSpec [2, 3] [1, 0] [0, 2] = [3, 5] := by decide
 example : (padView [2, 3] [1, 0, 0, 2]).map (fun v => (v.map [1, 2], v.map [0, 2], v.map [1, 4])) =
     some (some [0, 2], none, none) := by decide
 
-/-! ### take (domain of the theorems: axis ≥ 0 or None, index entries ≥ 0; the unchanged code does not
-    normalise negative axes / entries — see the `_counterexample`s and known findings take.negative-*) -/
+/-! ### take (every accepted axis incl. negative and None; index entries in `[-extent, extent)` incl. negative and
+    repeated ones — NumPy's `np.take`).  The missing normalisation of negative axes / entries was repaired in /repo
+    ("take.negative-axis", "take.negative-index"); the model follows the repaired code. -/
 
-/-- NumPy's shape `s[:k] ++ [len ind] ++ s[k+1:]`; the view is never Nothing -/
-theorem take_shape (s : Shape) (ind : List Int) (k : Nat) (hk : k < s.length) :
-    ∃ v, takeView s ind (some (k : Int)) = some v ∧ v.src = s ∧ v.dst = takeShapeSpec s ind.length k :=
-  ⟨_, rfl, rfl, shapeTake_eq_spec s ind.length k hk⟩
+/-- NumPy's shape `s[:k] ++ [len ind] ++ s[k+1:]` for the normalised axis `k`; the view is never Nothing -/
+theorem take_shape (s : Shape) (ind : List Int) (axis : Int) (k : Nat) (hk : normalizeAxis1 axis s.length = some k) :
+    ∃ v, takeView s ind (some axis) = some v ∧ v.src = s ∧ v.dst = takeShapeSpec s ind.length k := by
+  rw [takeView_axis_normalize s ind axis k hk]
+  exact ⟨_, rfl, rfl, shapeTake_eq_spec s ind.length k (normalizeAxis1_some axis _ k hk).1⟩
 
-/-- `out[…, x, …] = a[…, ind[x], …]` for a non-negative entry `ind[x] = j` -/
-theorem take_elem (s : Shape) (ind : List Int) (k : Nat) (hk : k < s.length) (v : IxView)
-    (hv : takeView s ind (some (k : Int)) = some v) (d : Idx) (hd : InShape d v.dst)
-    (x j : Nat) (hx : d[k]? = some x) (hj : ind[x]? = some (j : Int)) :
+/-- `out[…, x, …] = a[…, ind[x], …]`, a negative entry counting from the end of the axis (`normIndex`) -/
+theorem take_elem (s : Shape) (ind : List Int) (axis : Int) (k : Nat) (hk : normalizeAxis1 axis s.length = some k)
+    (v : IxView) (hv : takeView s ind (some axis) = some v) (d : Idx)
+    (x n : Nat) (e : Int) (j : Nat) (hx : d[k]? = some x) (hn : s[k]? = some n) (he : ind[x]? = some e)
+    (hj : normIndex n e = some j) :
     v.map d = some (d.set k j) := by
+  rw [takeView_axis_normalize s ind axis k hk] at hv
   simp only [takeView, Option.some.injEq] at hv
   subst hv
-  simp [indexTake_eq d ind k x j hx hj]
+  simp [indexTake_eq d s ind k x n e j hx hn he hj]
 
-/-- entries inside `[0, s[k])` ⇒ every read is inside the source -/
-theorem take_inBounds (s : Shape) (ind : List Int) (k : Nat) (hk : k < s.length)
-    (hind : ∀ e ∈ ind, 0 ≤ e ∧ e < (s[k] : Int)) (v : IxView)
-    (hv : takeView s ind (some (k : Int)) = some v) : v.InBounds := by
-  have hv' := hv
-  simp only [takeView, Option.some.injEq] at hv
-  subst hv
+/-- entries inside `[-s[k], s[k])` ⇒ every read is inside the source -/
+theorem take_inBounds (s : Shape) (ind : List Int) (axis : Int) (k : Nat) (hk : normalizeAxis1 axis s.length = some k)
+    (n : Nat) (hn : s[k]? = some n) (hind : ∀ e ∈ ind, -(n : Int) ≤ e ∧ e < (n : Int)) (v : IxView)
+    (hv : takeView s ind (some axis) = some v) : v.InBounds := by
+  have hkn := (normalizeAxis1_some axis _ k hk).1
+  obtain ⟨w, hw, h1, h2⟩ := take_shape s ind axis k hk
+  rw [hv] at hw; simp only [Option.some.injEq] at hw; subst hw
   intro d hd i hi
-  simp only at hd hi
-  rw [shapeTake_eq_spec s ind.length k hk, takeShapeSpec_eq_set s _ k hk] at hd
+  rw [h2, takeShapeSpec_eq_set s _ k hkn] at hd
+  rw [h1]
   have hl := hd.length_eq
   simp at hl
   have hkd : k < d.length := by omega
   have hdk : d[k] < ind.length := by
-    have := ((inShape_iff_forall _ _).1 hd).2 k hkd (by simpa using hk)
+    have := ((inShape_iff_forall _ _).1 hd).2 k hkd (by simpa using hkn)
     simpa using this
   have hmem := hind ind[d[k]] (List.getElem_mem hdk)
-  obtain ⟨j, hj⟩ : ∃ j : Nat, ind[d[k]] = (j : Int) := ⟨ind[d[k]].toNat, by omega⟩
-  have := indexTake_eq d ind k d[k] j (by simp [hkd]) (by simp [hdk, hj])
+  obtain ⟨j, hj⟩ := normIndex_isSome n ind[d[k]] hmem.1 hmem.2
+  rw [take_elem s ind axis k hk v hv d d[k] n ind[d[k]] j (by simp [hkd]) hn (by simp [hdk]) hj] at hi
   simp only [Option.some.injEq] at hi
-  rw [this] at hi
   subst hi
-  have hjs : j < s[k] := by rw [hj] at hmem; omega
-  exact inShape_set_of_set hd hk hjs
+  have e1 : s[k] = n := by simpa [hkn] using hn
+  have hjs : j < s[k] := by rw [e1]; exact normIndex_lt n _ j hj
+  exact inShape_set_of_set hd hkn hjs
 
 /-- axis None: shape `[len ind]`, never Nothing -/
 theorem takeNone_shape (s : Shape) (ind : List Int) :
     ∃ v, takeView s ind none = some v ∧ v.src = s ∧ v.dst = [ind.length] := ⟨_, rfl, rfl, rfl⟩
 
-/-- axis None: `out[x] = flat(a)[ind[x]]` for a non-negative entry -/
+/-- axis None: `out[x] = flat(a)[ind[x]]`, a negative entry counting from the end of the flattened array -/
 theorem takeNone_elem (s : Shape) (ind : List Int) (v : IxView) (hv : takeView s ind none = some v)
-    (x j : Nat) (hj : ind[x]? = some (j : Int)) : v.map [x] = some (ndindex s j) := by
+    (x : Nat) (e : Int) (j : Nat) (he : ind[x]? = some e) (hj : normIndex (prod s) e = some j) :
+    v.map [x] = some (ndindex s j) := by
   simp only [takeView, Option.some.injEq] at hv
   subst hv
-  simp [indexTakeNone, takeEntry_nat ind x j hj, ndindex]
+  simp [indexTakeNone, takeEntry_norm ind (prod s) x e j he hj, ndindex]
 
 theorem takeNone_inBounds (s : Shape) (hs : Pos s) (ind : List Int) (v : IxView) (hv : takeView s ind none = some v) :
     v.InBounds := by
@@ -154,20 +159,25 @@ theorem takeNone_inBounds (s : Shape) (hs : Pos s) (ind : List Int) (v : IxView)
   | nil => simp [shapeTakeNone, InShape] at hd
   | cons x xs => exact indices_inShape hs _
 
-/-- the unchanged code does not count negative entries from the end: `take([0,1,2], [-1])` reads index 2^64-1, NumPy reads 2 -/
-theorem take_negative_index_counterexample :
-    (takeView [3] [-1] (some 0)).bind (·.map [0]) ≠ (normIndex 3 (-1)).map (fun j => [j]) := by decide
-
-/-- … nor a negative axis: `take(a, [1], axis=-1)` on shape `[2]` keeps shape `[2]`, NumPy gives `[1]` -/
-theorem take_negative_axis_counterexample :
-    (takeView [2] [1] (some (-1))).map (·.dst) ≠ some (takeShapeSpec [2] 1 0) := by decide
-
 example : takeShapeSpec [2, 3, 4] 5 1 = [2, 5, 4] := by decide
 example : (takeView [2, 3] [2, 0, 0] (some 1)).map (·.map [1, 0]) = some (some [1, 2]) := by decide
 example : normIndex 3 (-1) = some 2 := by decide
+/-- negative entry and negative axis (regression guards for the repaired defects) -/
+example : (takeView [3] [-1] (some 0)).bind (·.map [0]) = some [2] := by decide
+example : (takeView [2, 3] [-1, 0] (some (-1))).map (fun v => (v.dst, v.map [1, 0])) = some ([2, 2], some [1, 2]) := by decide
+example : (takeView [2, 3] [-2] none).bind (·.map [0]) = some [1, 1] := by decide
 
-/-! ### repeat (domain of the theorems: axis ≥ 0 or None; the unchanged index function ignores a negative axis —
-    `repeat_negative_axis_counterexample`, known finding repeat.negative-axis) -/
+/-! ### repeat (every accepted axis: stated for the normalised position `k`; `repeat_axis_normalize` /
+    `repeatList_axis_normalize` transfer each statement to every accepted axis incl. negative ones — the missing
+    normalisation in `index::repeat` was repaired in /repo, "repeat.negative-axis"; axis None) -/
+
+/-- an accepted (possibly negative) axis gives exactly the view of its normalised position -/
+theorem repeat_axis_normalize (s : Shape) (r : Nat) (axis : Int) (k : Nat) (hk : normalizeAxis1 axis s.length = some k) :
+    repeatView s r (some axis) = repeatView s r (some (k : Int)) := repeatView_axis_normalize s r axis k hk
+
+theorem repeatList_axis_normalize (s : Shape) (rs : List Nat) (axis : Int) (k : Nat)
+    (hk : normalizeAxis1 axis s.length = some k) :
+    repeatListView s rs axis = repeatListView s rs (k : Int) := repeatListView_axis_normalize s rs axis k hk
 
 /-- a destination index inside `replaceExtent s k m` has the rank of `s` and its `k`-th coordinate below `m` -/
 private theorem coord_of_inShape {d : Idx} {s : Shape} {k m : Nat} (hk : k < s.length)
@@ -191,7 +201,7 @@ theorem repeat_elem (s : Shape) (r k : Nat) (hk : k < s.length) (v : IxView)
     v.map d = some (d.set k (x / r)) := by
   simp only [repeatView, shapeRepeat_eq_spec s r k hk, Option.map_some, Option.some.injEq] at hv
   subst hv
-  simp [indexRepeat_eq r k x d hx]
+  simp [indexRepeat_eq s r k x d hx]
 
 theorem repeat_inBounds (s : Shape) (r k : Nat) (hk : k < s.length) (v : IxView)
     (hv : repeatView s r (some (k : Int)) = some v) : v.InBounds := by
@@ -244,7 +254,7 @@ theorem repeatList_elem (s : Shape) (rs : List Nat) (k : Nat) (hk : k < s.length
   obtain ⟨x, hx, hxm, _⟩ := coord_of_inShape hk hd
   have := repeatSrc_getElem rs 0 x hxm
   refine ⟨x, firstAbove rs x, hx, by simpa using this.1, this.2, ?_⟩
-  simp [indexRepeatList_eq rs k x d hx]
+  simp [indexRepeatList_eq s rs k x d hx]
 
 theorem repeatList_inBounds (s : Shape) (rs : List Nat) (k : Nat) (hk : k < s.length) (hrs : rs.length = s[k])
     (v : IxView) (hv : repeatListView s rs (k : Int) = some v) : v.InBounds := by
@@ -259,17 +269,20 @@ theorem repeatList_inBounds (s : Shape) (rs : List Nat) (k : Nat) (hk : k < s.le
   have hjs : j < s[k] := by omega
   exact inShape_set_of_set hd' hk hjs
 
-/-- the unchanged `index::repeat` ignores a negative axis: `repeat(a, 2, axis=-1)` on shape `[1]` reads index 1 at
-    destination 1 where NumPy reads `1 / 2 = 0` -/
-theorem repeat_negative_axis_counterexample :
-    (repeatView [1] 2 (some (-1))).bind (·.map [1]) ≠ (repeatView [1] 2 (some 0)).bind (·.map [1]) := by decide
+/-- negative axis (regression guard for the repaired defect) -/
+example : (repeatView [1, 2] 2 (some (-1))).map (fun v => (v.dst, v.map [0, 3])) = some ([1, 4], some [0, 1]) := by decide
 
 example : replaceExtent [2, 3, 4] 1 6 = [2, 6, 4] := by decide
 example : repeatSrc [1, 2, 0, 3] 0 = [0, 1, 1, 3, 3, 3] := by decide
 example : (repeatListView [2, 3] [1, 2, 0] 1).map (fun v => (v.dst, v.map [1, 2])) = some ([2, 3], some [1, 1]) := by decide
 
-/-! ### concatenate (two operands; domain of the theorems: axis ≥ 0 or None; the unchanged code ignores a negative
-    axis — `concatenate_negative_axis_counterexample`, known finding concatenate.negative-axis) -/
+/-! ### concatenate (two operands; every accepted axis: stated for the normalised position `k`,
+    `concatenate_axis_normalize` transfers each statement to every accepted axis incl. negative ones — the missing
+    normalisation was repaired in /repo, "concatenate.negative-axis"; axis None) -/
+
+/-- an accepted (possibly negative) axis gives exactly the view of its normalised position -/
+theorem concatenate_axis_normalize (a b : Shape) (axis : Int) (k : Nat) (hk : normalizeAxis1 axis a.length = some k) :
+    concatenateView a b (some axis) = concatenateView a b (some (k : Int)) := concatenateView_axis_normalize a b axis k hk
 
 /-- compatible operands: `shape_concatenate` succeeds with NumPy's shape (extent `a[k] + b[k]` on the axis) -/
 theorem concatenate_shape (a b : Shape) (k : Nat) (h : ConcatCompatible a b k) :
@@ -375,15 +388,14 @@ theorem concatenateNone_inBounds (a b : Shape) (ha : Pos a) (hb : Pos b) (v : Ix
         obtain ⟨rfl, rfl⟩ := hi
         exact indices_inShape hb _
 
-/-- the unchanged `shape_concatenate` ignores a negative axis: `concatenate([x],[y],axis=-1)` keeps shape `[1]`, NumPy gives `[2]` -/
-theorem concatenate_negative_axis_counterexample :
-    (concatenateView [1] [1] (some (-1))).map (·.dst) ≠ (concatenateView [1] [1] (some 0)).map (·.dst) := by decide
+/-- negative axis (regression guard for the repaired defect) -/
+example : (concatenateView [1] [1] (some (-1))).map (·.dst) = some [2] := by decide
 
 example : ConcatCompatible [2, 3] [2, 1] 1 := ⟨rfl, by decide, by intro j hj; cases j with | zero => rfl | succ j => cases j with | zero => exact absurd rfl hj | succ j => rfl⟩
 example : (concatenateView [2, 3] [2, 1] (some 1)).map (fun v => (v.dst, v.map [1, 2], v.map [1, 3])) =
     some ([2, 4], some (false, [1, 2]), some (true, [1, 0])) := by decide
 
-/-! ### roll (every shift sign and magnitude; accepted axes incl. negative; axis None; several distinct axes).
+/-! ### roll (every shift sign and magnitude; accepted axes incl. negative; axis None; several axes, repeats included).
     The single-wrap defect (DESIGN F5) was repaired in /repo ("fix: roll wraps shifts larger than the extent"):
     `normalize_roll_index` is now `index % n` (+ `n` if negative), proved here to be the mathematical modulo. -/
 
@@ -469,29 +481,37 @@ theorem rollAxes_shape (s : Shape) (shifts axes : List Int) (ks : List Nat) (hk 
     ∃ v, rollAxesView s shifts axes = some v ∧ v.src = s ∧ v.dst = s := by
   simp [rollAxesView, shapeRoll_of_axesNorm s axes ks hk]
 
-/-- several pairwise distinct axes, one shift each (any magnitude): every listed axis `j = ks[i]` reads
-    `(d[j] - shifts[i]) mod s[j]`, every other coordinate is copied — NumPy's element -/
+/-- several accepted axes (negative and REPEATED ones included), one shift each (any magnitude): coordinate `j` reads
+    `(d[j] - Σ shifts of axis j) mod s[j]` — NumPy's rule (`shiftSum` is 0 for an axis that is not listed, and
+    `rollSrc n x 0 = x`) -/
 theorem rollAxes_elem (s : Shape) (shifts axes : List Int) (ks : List Nat) (hk : AxesNorm s.length axes ks)
-    (hlen : shifts.length = axes.length) (hnd : ks.Nodup)
+    (hlen : shifts.length = axes.length)
     (v : IxView) (hv : rollAxesView s shifts axes = some v) (d : Idx) (hd : InShape d s) :
     ∃ r, v.map d = some r ∧ r.length = d.length ∧
-      ∀ j, (j ∉ ks → r[j]? = d[j]?) ∧
-        (∀ (i : Nat) (sh : Int), ks[i]? = some j → shifts[i]? = some sh →
-          ∃ n x : Nat, s[j]? = some n ∧ d[j]? = some x ∧ r[j]? = some (rollSrc n x sh)) := by
+      ∀ j, j < d.length → ∃ n x : Nat, s[j]? = some n ∧ d[j]? = some x ∧
+        r[j]? = some (rollSrc n x (shiftSum ks shifts j)) := by
   simp only [rollAxesView, shapeRoll_of_axesNorm s axes ks hk, Option.map_some, Option.some.injEq] at hv
   subst hv
-  obtain ⟨r, hr, hrl, hspec⟩ := indexRollLoop_spec s d hd axes ks shifts d hk hlen rfl
-  refine ⟨r, by simp [indexRollU, hr], hrl, fun j => ⟨(hspec j).1, (hspec j).2 hnd⟩⟩
+  have hl := hd.length_eq
+  obtain ⟨r, hr, hrl, hspec⟩ := indexRollLoop_sum s d hd axes ks shifts d (fun _ => 0) hk hlen rfl (by
+    intro j hj
+    have hjs : j < s.length := by omega
+    have hx := ((inShape_iff_forall _ _).1 hd).2 j hj hjs
+    exact ⟨s[j], d[j], by simp [hjs], by simp [hj], by simp [hj, rollSrc_zero s[j] d[j] hx]⟩)
+  refine ⟨r, by simp [indexRollU, hr], hrl, ?_⟩
+  intro j hj
+  obtain ⟨n, x, h1, h2, h3⟩ := hspec j hj
+  exact ⟨n, x, h1, h2, by simpa using h3⟩
 
 theorem rollAxes_inBounds (s : Shape) (shifts axes : List Int) (ks : List Nat) (hk : AxesNorm s.length axes ks)
-    (hlen : shifts.length = axes.length) (hnd : ks.Nodup)
+    (hlen : shifts.length = axes.length)
     (v : IxView) (hv : rollAxesView s shifts axes = some v) : v.InBounds := by
   obtain ⟨w, hw, h3, h4⟩ := rollAxes_shape s shifts axes ks hk
   rw [hv] at hw; simp only [Option.some.injEq] at hw; subst hw
   intro d hd i hi
   rw [h4] at hd
   rw [h3]
-  obtain ⟨r, hr, hrl, hspec⟩ := rollAxes_elem s shifts axes ks hk hlen hnd v hv d hd
+  obtain ⟨r, hr, hrl, hspec⟩ := rollAxes_elem s shifts axes ks hk hlen v hv d hd
   rw [hr] at hi
   simp only [Option.some.injEq] at hi
   subst hi
@@ -500,25 +520,15 @@ theorem rollAxes_inBounds (s : Shape) (shifts axes : List Int) (ks : List Nat) (
   refine ⟨by omega, ?_⟩
   intro j h1 h2
   have hdj := ((inShape_iff_forall _ _).1 hd).2 j (by omega) h2
-  by_cases hj : j ∈ ks
-  · obtain ⟨i, hi, hij⟩ := List.getElem_of_mem hj
-    have hks := hk.length_eq
-    have hish : i < shifts.length := by omega
-    obtain ⟨n, x, hn, hx, hrj⟩ := (hspec j).2 i shifts[i] (by simp [hi, hij]) (by simp [hish])
-    have e1 : s[j] = n := by simpa [h2] using hn
-    have e2 : r[j] = rollSrc n x shifts[i] := by simpa [h1] using hrj
-    rw [e1, e2]
-    exact rollSrc_lt n x _ (by omega)
-  · have := (hspec j).1 hj
-    have e : r[j] = d[j] := by
-      have hjd : j < d.length := by omega
-      simpa [h1, hjd] using this
-    rw [e]; exact hdj
+  obtain ⟨n, x, hn, hx, hrj⟩ := hspec j (by omega)
+  have e1 : s[j] = n := by simpa [h2] using hn
+  have e2 : r[j] = rollSrc n x (shiftSum ks shifts j) := by simpa [h1] using hrj
+  rw [e1, e2]
+  exact rollSrc_lt n x _ (by omega)
 
-/-- a repeated axis keeps only the last shift where NumPy adds them up: `roll(a, (1,1), (0,0))` on extent 3 reads
-    `(0-1) mod 3 = 2` at destination 0, NumPy reads `(0-2) mod 3 = 1` -/
-theorem roll_repeated_axis_counterexample :
-    (rollAxesView [3] [1, 1] [0, 0]).bind (·.map [0]) ≠ some [rollSrc 3 0 (1 + 1)] := by decide
+/-- a repeated axis adds its shifts up (regression guard for the repaired defect) -/
+example : (rollAxesView [3] [1, 1] [0, -1]).bind (·.map [0]) = some [rollSrc 3 0 (1 + 1)] := by decide
+example : shiftSum [0, 1, 0] [1, 5, 2] 0 = 3 := by decide
 
 /-- shifts beyond the extent wrap (regression guard for the repaired single-wrap defect) -/
 example : (rollView [3] 7 0).bind (·.map [0]) = some [rollSrc 3 0 7] := by decide
@@ -573,42 +583,56 @@ theorem resize_inBounds (s t : Shape) (hs : Pos s) (v : IxView) (hv : resizeView
 
 example : (resizeView [2, 3] [4, 2]).map (fun v => (v.dst, v.map [3, 1])) = some ([4, 2], some [1, 1]) := by decide
 
-/-! ### compress (`compress(cond, a, axis) = take(a, nonzero(cond), axis)`; domain: axis ≥ 0 or None — the unchanged
-    code ignores a negative axis, known finding compress.negative-axis) -/
+/-! ### compress (`compress(cond, a, axis) = take(a, nonzero(cond), axis)`; every accepted axis incl. negative
+    (repaired in /repo: "compress.negative-axis") and None) -/
 
 /-- the kept positions are exactly positions of non-zero condition entries -/
 theorem compress_positions (cond : List Int) :
     ∀ j ∈ nonzeroIdx cond, j < cond.length ∧ ∃ c, cond[j]? = some c ∧ c ≠ 0 := nonzeroIdx_spec cond
 
+/-- an accepted (possibly negative) axis gives exactly the view of its normalised position -/
+theorem compress_axis_normalize (s : Shape) (cond : List Int) (axis : Int) (k : Nat)
+    (hk : normalizeAxis1 axis s.length = some k) :
+    compressView s cond (some axis) = compressView s cond (some (k : Int)) :=
+  takeView_axis_normalize s _ axis k hk
+
 /-- NumPy's shape: the axis keeps as many entries as the condition has non-zero ones -/
-theorem compress_shape (s : Shape) (cond : List Int) (k : Nat) (hk : k < s.length) :
-    ∃ v, compressView s cond (some (k : Int)) = some v ∧ v.src = s ∧
+theorem compress_shape (s : Shape) (cond : List Int) (axis : Int) (k : Nat) (hk : normalizeAxis1 axis s.length = some k) :
+    ∃ v, compressView s cond (some axis) = some v ∧ v.src = s ∧
       v.dst = takeShapeSpec s (nonzeroIdx cond).length k := by
-  obtain ⟨v, hv, h1, h2⟩ := take_shape s ((nonzeroIdx cond).map Int.ofNat) k hk
+  obtain ⟨v, hv, h1, h2⟩ := take_shape s ((nonzeroIdx cond).map Int.ofNat) axis k hk
   exact ⟨v, hv, h1, by simpa using h2⟩
 
 /-- entry `x` of the axis reads the `x`-th non-zero position of the condition -/
-theorem compress_elem (s : Shape) (cond : List Int) (k : Nat) (hk : k < s.length) (v : IxView)
-    (hv : compressView s cond (some (k : Int)) = some v) (d : Idx) (hd : InShape d v.dst)
+theorem compress_elem (s : Shape) (cond : List Int) (axis : Int) (k : Nat) (hk : normalizeAxis1 axis s.length = some k)
+    (v : IxView) (hv : compressView s cond (some axis) = some v) (d : Idx)
     (x j : Nat) (hx : d[k]? = some x) (hj : (nonzeroIdx cond)[x]? = some j) :
-    v.map d = some (d.set k j) :=
-  take_elem s _ k hk v hv d hd x j hx (by simp [hj])
+    v.map d = some (d.set k j) := by
+  rw [compress_axis_normalize s cond axis k hk] at hv
+  simp only [compressView, takeView, Option.some.injEq] at hv
+  subst hv
+  have hj' : ((nonzeroIdx cond).map Int.ofNat)[x]? = some (j : Int) := by rw [List.getElem?_map, hj]; rfl
+  simp [indexTake_eq_nat d s _ k x j hx hj']
 
 /-- a condition no longer than the axis never reads outside the source -/
-theorem compress_inBounds (s : Shape) (cond : List Int) (k : Nat) (hk : k < s.length) (hc : cond.length ≤ s[k])
-    (v : IxView) (hv : compressView s cond (some (k : Int)) = some v) : v.InBounds := by
-  apply take_inBounds s _ k hk _ v hv
+theorem compress_inBounds (s : Shape) (cond : List Int) (axis : Int) (k : Nat) (hk : normalizeAxis1 axis s.length = some k)
+    (n : Nat) (hn : s[k]? = some n) (hc : cond.length ≤ n)
+    (v : IxView) (hv : compressView s cond (some axis) = some v) : v.InBounds := by
+  apply take_inBounds s _ axis k hk n hn _ v hv
   intro e he
   simp only [List.mem_map] at he
   obtain ⟨j, hj, rfl⟩ := he
   have := (nonzeroIdx_spec cond j hj).1
   constructor
-  · exact Int.natCast_nonneg j
-  · show (j : Int) < (s[k] : Int)
+  · have : (0 : Int) ≤ (j : Int) := Int.natCast_nonneg j
+    show -(n : Int) ≤ (j : Int)
+    omega
+  · show (j : Int) < (n : Int)
     omega
 
 example : nonzeroIdx [0, 1, 0, 1] = [1, 3] := by decide
 example : (compressView [2, 4] [0, 1, 0, 1] (some 1)).map (fun v => (v.dst, v.map [1, 1])) = some ([2, 2], some [1, 3]) := by decide
+example : (compressView [2, 4] [0, 1, 0, 1] (some (-1))).map (fun v => (v.dst, v.map [1, 1])) = some ([2, 2], some [1, 3]) := by decide
 
 /-! ### expand (spacing insertion with a fill value: documented definition — extent `n + (n-1)·spacing` on the axis,
     source entry `q` at position `q·(spacing+1)`, fill elsewhere).  Proved for one axis (any accepted sign);
@@ -1011,33 +1035,56 @@ example : (stackView [2] [2] 1).map (fun v => (v.dst, v.map [1, 0], v.map [1, 1]
 example : (vstackView [3] [2, 3]).map (fun v => (v.dst, v.map [0, 2], v.map [2, 1])) =
     some ([3, 3], some (false, [2]), some (true, [1, 1])) := by decide
 
-/-! ### diagonal — PARTIAL: proved for a matrix (rank 2, axes (0,1)) and `0 ≤ offset ≤ columns`.
-    Full statement (not proved): for every rank, accepted axis pair `a1 ≠ a2` and offset with a non-negative diagonal
-    length, `dst = others ++ [min(s[a1] + min(off,0), s[a2] - max(off,0))]` and `out[o…, j] = a[o… with a1 ↦ j - min(off,0),
-    a2 ↦ j + max(off,0)]`.  The unchanged code violates it for `offset < 0` and for offsets beyond the extent
-    (`diagonal_negative_offset_counterexample`, `diagonal_offset_beyond_extent_counterexample`). -/
+/-! ### diagonal — PARTIAL: proved for a matrix (rank 2, axes (0,1)) and EVERY offset (negative, beyond the extent: empty).
+    Full statement (not proved): for every rank and accepted axis pair `a1 ≠ a2`,
+    `dst = others ++ [max(0, min(s[a1] + min(off,0), s[a2] - max(off,0)))]` and
+    `out[o…, j] = a[o… with a1 ↦ j + max(-off,0), a2 ↦ j + max(off,0)]` (under correspondence for every rank).
+    The two defects of the original code (negative offset, offset beyond the extent) were repaired in /repo. -/
 
-theorem diagonal2d_shape_partial (n1 n2 off : Nat) (h : off ≤ n2) :
-    ∃ v, diagonalView [n1, n2] (off : Int) 0 1 = some v ∧ v.src = [n1, n2] ∧ v.dst = [min n1 (n2 - off)] := by
-  have e1 : ¬ ((off : Int) < 0) := by omega
-  have hval : i2u (if (n1 : Int) < (if 0 < off then (n2 : Int) - off else n2) then (n1 : Int)
-      else (if 0 < off then (n2 : Int) - off else n2)) = min n1 (n2 - off) := by
-    rw [i2u_of_nonneg _ (by split <;> split <;> omega)]
-    split <;> split <;> omega
-  simp [diagonalView, normalizeAxis1, shapeDiagonal, othersAux, e1, hval]
+/-- NumPy's diagonal length `max(0, min(n1 + min(off,0), n2 - max(off,0)))` -/
+def diagLen (n1 n2 : Nat) (off : Int) : Nat :=
+  (min ((n1 : Int) + min off 0) ((n2 : Int) - max off 0)).toNat
 
-theorem diagonal2d_elem_partial (n1 n2 off : Nat) (v : IxView)
-    (hv : diagonalView [n1, n2] (off : Int) 0 1 = some v) (j : Nat) : v.map [j] = some [j, j + off] := by
+theorem diagonal2d_shape_partial (n1 n2 : Nat) (off : Int) :
+    ∃ v, diagonalView [n1, n2] off 0 1 = some v ∧ v.src = [n1, n2] ∧ v.dst = [diagLen n1 n2 off] := by
+  have hval : ∀ m : Int, i2u (if m < 0 then 0 else m) = m.toNat := by
+    intro m
+    rw [i2u_of_nonneg _ (by split <;> omega)]
+    split <;> omega
+  simp only [diagonalView, normalizeAxis1, shapeDiagonal]
+  simp only [hval]
+  refine ⟨_, by simp; rfl, rfl, ?_⟩
+  simp only [othersAux, diagLen]
+  have key : (if (if off < 0 then (n1 : Int) + off else n1) < (if 0 < off then (n2 : Int) - off else n2) then
+      (if off < 0 then (n1 : Int) + off else n1) else (if 0 < off then (n2 : Int) - off else n2)) =
+      min ((n1 : Int) + min off 0) ((n2 : Int) - max off 0) := by
+    by_cases h1 : off < 0
+    · have h2 : ¬ (0 < off) := by omega
+      simp only [h1, h2, if_true, if_false]
+      split <;> omega
+    · by_cases h2 : 0 < off
+      · simp only [h1, h2, if_true, if_false]
+        split <;> omega
+      · simp only [h1, h2, if_false]
+        split <;> omega
+  rw [key]
+  simp
+
+/-- `out[j] = a[j + max(-off,0), j + max(off,0)]`: NumPy's `(j, j+off)` for `off ≥ 0`, `(j-off, j)` for `off < 0` -/
+theorem diagonal2d_elem_partial (n1 n2 : Nat) (off : Int) (v : IxView)
+    (hv : diagonalView [n1, n2] off 0 1 = some v) (j : Nat) :
+    v.map [j] = some [j + (max (-off) 0).toNat, j + (max off 0).toNat] := by
+  obtain ⟨w, hw, _, _⟩ := diagonal2d_shape_partial n1 n2 off
   simp only [diagonalView, normalizeAxis1, shapeDiagonal] at hv
   simp at hv
   subst hv
-  have : i2u ((j : Int) + (off : Int)) = j + off := by
-    rw [i2u_of_nonneg _ (by omega)]; omega
-  simp [indexDiagonal, scatterOthers, this]
+  have e1 : (if off < 0 then (-off).toNat else 0) = (max (-off) 0).toNat := by split <;> omega
+  have e2 : (if off > 0 then off.toNat else 0) = (max off 0).toNat := by split <;> omega
+  simp [indexDiagonal, scatterOthers, e1, e2]
 
-theorem diagonal2d_inBounds_partial (n1 n2 off : Nat) (h : off ≤ n2) (v : IxView)
-    (hv : diagonalView [n1, n2] (off : Int) 0 1 = some v) : v.InBounds := by
-  obtain ⟨w, hw, h1, h2⟩ := diagonal2d_shape_partial n1 n2 off h
+theorem diagonal2d_inBounds_partial (n1 n2 : Nat) (off : Int) (v : IxView)
+    (hv : diagonalView [n1, n2] off 0 1 = some v) : v.InBounds := by
+  obtain ⟨w, hw, h1, h2⟩ := diagonal2d_shape_partial n1 n2 off
   rw [hv] at hw; simp only [Option.some.injEq] at hw; subst hw
   intro d hd i hi
   rw [h2] at hd
@@ -1047,29 +1094,31 @@ theorem diagonal2d_inBounds_partial (n1 n2 off : Nat) (h : off ≤ n2) (v : IxVi
     rw [diagonal2d_elem_partial n1 n2 off v hv j] at hi
     simp only [Option.some.injEq] at hi
     subst hi
-    simp only [InShape] at hd ⊢
+    simp only [InShape, diagLen] at hd ⊢
     have := hd.1
     refine ⟨by omega, by omega, trivial⟩
 
-/-- negative offset: `diagonal([[…],[…]], offset=-1)` on shape (2,1) must read `a[1,0]`; the code addresses `(0, 0-1)` -/
-theorem diagonal_negative_offset_counterexample :
-    (diagonalView [2, 1] (-1) 0 1).bind (·.map [0]) ≠ some [1, 0] := by decide
-
-/-- offset beyond the extent: NumPy's diagonal is empty (extent 0); the code stores `-1` into a `size_t` extent -/
-theorem diagonal_offset_beyond_extent_counterexample :
-    (diagonalView [1, 1] 2 0 1).map (·.dst) ≠ some [0] := by decide
+/-- negative offset and empty diagonal (regression guards for the repaired defects) -/
+example : (diagonalView [2, 1] (-1) 0 1).bind (·.map [0]) = some [1, 0] := by decide
+example : (diagonalView [1, 1] 2 0 1).map (·.dst) = some [0] := by decide
+example : diagLen 3 4 (-1) = 2 ∧ diagLen 3 4 5 = 0 := by decide
 
 example : (diagonalView [3, 4] 1 0 1).map (fun v => (v.dst, v.map [2])) = some ([3], some [2, 3]) := by decide
 
-/-! ### further counterexamples for known findings of the unchanged tree -/
+/-! ### stack with a negative axis: `expand_dims` and the repaired `concatenate` normalise against the same rank `dim+1` -/
 
-/-- `stack(a, b, axis=-1)`: `expand_dims` normalises the axis, `concatenate` does not — shape `(1,1)` instead of `(1,2)` -/
-theorem stack_negative_axis_counterexample :
-    (stackView [1] [1] (-1)).map (·.dst) ≠ (stackView [1] [1] 1).map (·.dst) := by decide
+theorem stack_axis_normalize (a b : Shape) (axis : Int) (k : Nat) (hk : normalizeAxis1 axis (a.length + 1) = some k)
+    (hb : b.length = a.length) :
+    stackView a b axis = stackView a b (k : Int) := by
+  have hk' : normalizeAxis1 (k : Int) (a.length + 1) = some k :=
+    normalizeAxis1_nat k _ (normalizeAxis1_some axis _ k hk).1
+  have hlen : (a.take k ++ 1 :: a.drop k).length = a.length + 1 := by
+    have := (normalizeAxis1_some axis _ k hk).1
+    simp; omega
+  simp only [stackView, shapeExpandDims, hk, hk', hb, Option.map_some, joinReshaped]
+  rw [concatenateView_axis_normalize _ _ axis k (by rw [hlen]; exact hk)]
 
-/-- `compress([0], a, axis=-1)` on shape `[1]` returns the source (shape `[1]`), NumPy returns shape `[0]` -/
-theorem compress_negative_axis_counterexample :
-    (compressView [1] [0] (some (-1))).map (·.dst) ≠ (compressView [1] [0] (some 0)).map (·.dst) := by decide
+example : (stackView [1] [1] (-1)).map (·.dst) = some [1, 2] := by decide
 
 /-! ### tri / eye / identity (generators; NumPy: `tri[i,j] = 1 iff j ≤ i + k`, `eye[i,j] = 1 iff j = i + k`) -/
 
